@@ -8,6 +8,7 @@ CONSTANTS
   Filts = {FALSE, TRUE}
   Meds = {FALSE}
   AllowClear = FALSE
+  DeltaOpts = {TRUE}
   AsCoded = FALSE
   Withhold = FALSE
 VIEW View
